@@ -440,11 +440,38 @@ def gen_cases(rng, tier, budget):
         if i % 5 == 0:
             evs = ["e1"] + evs           # the very first thing the subscriber does: loop our request back
         cases.append("s6 %s %s" % (mac, " ".join(evs)))
+        if i % 3 == 0:
+            # the same packets against IPv6CP of an LNS session (no D / R there)
+            cases.append("l6 - %s" % " ".join(e for e in evs if e not in ("D", "R")) if any(e not in ("D", "R") for e in evs)
+                         else "l6 - e1")
+    # ---- LCP inside a session: the magic number the BNG announces vs the one it compares with
+    nsl = (budget or 300) if quick else (budget or 4000)
+    lreqs = [[opt(5, "0a0b0c0d")], [opt(5, "00000000")], [opt(1, "05d4"), opt(5, "0a0b0c0d")], [],
+             [opt(3, "c22305")], [opt(1, "003f")], [opt(7, ""), opt(5, "0a0b0c0d")], [opt(5, "01020304")]]
+    for i in range(nsl):
+        start = "restore:" + rng.choice(["01020304", "01020304", "00000000", "ffffffff"]) if i % 4 == 3 else "fresh"
+        evs = []
+        for _ in range(rng.choice([1, 2, 3, 5, 8])):
+            r = rng.random()
+            if r < 0.3:
+                evs.append("e%d" % rng.randrange(256))
+            elif r < 0.6:
+                evs.append("q%d.%s" % (rng.randrange(256), wire(rng.choice(lreqs))))
+            elif r < 0.78:
+                evs.append("k")
+            elif r < 0.9:
+                evs.append("n" + wire(rng.choice([[opt(5, "01020304")], [opt(5, "00000000")], [opt(3, "c227")],
+                                                   [opt(1, "0200"), opt(5, "0a0b0c0d")], [opt(5, "0102")]])))
+            else:
+                evs.append("j" + wire(rng.choice([[opt(5, "01020304")], [opt(3, "c22305")], [opt(1, "05d4")]])))
+        if i % 5 == 0:
+            evs = ["e1"] + evs
+        cases.append("sl %s %s" % (start, " ".join(evs)))
     return cases
 
 
 def route(case):
-    return "sess" if case.startswith(("sess", "s6")) else ("lns" if case.startswith("lns") else "ppp")
+    return "sess" if case.startswith(("sess", "s6", "sl")) else ("lns" if case.startswith(("lns", "l6")) else "ppp")
 
 
 # ---------------------------------------------------------------- reading output lines
@@ -645,7 +672,32 @@ def _monitor(case, impl, out):
                     for t, d in os:
                         if t != 1 or len(d) != 16 or d == "00" * 8 or d == f[2]:
                             hit("IPv6CP Configure-Ack carries %d.%s" % (t, d))
-        elif f[0] == "s6":
+        elif f[0] == "sl":
+            parts = impl.split(" | ")
+            wire_m, clean = None, True
+            if f[1].startswith("restore:") and f[1][8:] != "00000000":
+                wire_m = f[1][8:]      # what the link announced before the restart: the checkpointed magic
+            for ev, p in zip(["start"] + f[2:], parts):
+                if p == "ended":
+                    break
+                if ev[0] == "n":
+                    clean = False
+                toks = p.split()
+                lm = [t for t in toks if t.startswith("lm=")][0][3:]
+                for t in toks:
+                    if t.startswith("sca:"):
+                        for ty, d in parse_opts(t.split(":", 2)[2]):
+                            if ty == 5 and d == lm and lm != "00000000":
+                                hit("LCP Configure-Ack carries its own magic number %s" % d)
+                            if ty == 5 and clean and wire_m is not None and d == wire_m:
+                                hit("LCP acknowledged magic number %s, which its own outstanding Configure-Request "
+                                    "announces" % d)
+                for t in toks:
+                    if t.startswith("scr:"):
+                        ms = [d for ty, d in parse_opts(t.split(":", 1)[1]) if ty == 5]
+                        wire_m = ms[0] if ms else None
+                        clean = True
+        elif f[0] in ("s6", "l6"):
             parts = impl.split(" | ")
             wire_id, clean = None, True   # identifier in the BNG's last Configure-Request; no learning since
             for ev, p in zip(["start"] + f[2:], parts):
@@ -670,6 +722,8 @@ def _monitor(case, impl, out):
                         clean = True
         elif f[0] in ("sess", "lns"):
             parts = impl.split(" | ")
+            if "pa=" not in parts[0]:
+                return              # the harness could not set the session up: glue, no verdict
             seen_pa = set()
             pa = None
             for ev, p in zip(["start"] + f[2:], parts):
@@ -754,7 +808,7 @@ def nontrivial(case, out):
         return "A=" in out and len(case.split()) > (5 if k == "hi" else 3)
     if k == "fsm":
         return not out.startswith("- ;")
-    if k == "s6":
+    if k in ("s6", "sl", "l6"):
         return "sca:" in out or "scn:" in out
     return "up=1" in out
 
@@ -801,7 +855,7 @@ def shrink(case):
             if len(b) <= 24:
                 for i in range(len(b)):
                     yield " ".join(f[:-1] + ["".join(b[:i] + b[i + 1:]) or "-"])
-    elif k in ("sess", "lns", "s6"):
+    elif k in ("sess", "lns", "s6", "sl", "l6"):
         evs = f[2:]
         for i in range(len(evs)):
             if len(evs) > 1:
@@ -809,7 +863,7 @@ def shrink(case):
 
 
 def distribution(cases, impl):
-    d = {"ipcp": 0, "lcp": 0, "v6": 0, "hi": 0, "hl": 0, "h6": 0, "history_ops": 0, "sess_reauth": 0, "fsm": 0, "sess": 0, "lns": 0, "s6": 0, "s6_echo": 0, "sess_alloc": 0, "sess_conflict": 0, "options_classified": 0, "acked": 0, "nakked": 0,
+    d = {"ipcp": 0, "lcp": 0, "v6": 0, "hi": 0, "hl": 0, "h6": 0, "history_ops": 0, "sess_reauth": 0, "fsm": 0, "sess": 0, "lns": 0, "s6": 0, "s6_echo": 0, "sl": 0, "sl_echo": 0, "sl_restored": 0, "l6": 0, "sess_alloc": 0, "sess_conflict": 0, "options_classified": 0, "acked": 0, "nakked": 0,
          "rejected": 0, "fsm_sca": 0, "fsm_scn": 0, "fsm_scj": 0, "fsm_silent": 0, "sess_opened": 0,
          "max_options_in_request": 0, "panic_or_hang": 0}
     for c, o in zip(cases, impl):
@@ -832,6 +886,9 @@ def distribution(cases, impl):
                 pass
         elif k == "s6":
             d["s6_echo"] += " e" in c
+        elif k == "sl":
+            d["sl_echo"] += " e" in c
+            d["sl_restored"] += "restore:" in c
         elif k in ("hi", "hl", "h6"):
             d["history_ops"] += len(c.split()) - (4 if k == "hi" else 2)
         elif k == "fsm":
